@@ -366,6 +366,8 @@ def fields(model, m):
     if model in ('cacgmm', 'gcacgmm', 'vmfcacgmm'):
         out['cacg_cov'] = canon_psd(m.cacg.covariance_eigenvectors, m.cacg.covariance_eigenvalues)
         out['cacg_eigvals'] = np.sort(np.asarray(m.cacg.covariance_eigenvalues), axis=-1)
+        with np.errstate(all='ignore'):
+            out['cacg_logeig'] = np.log(out['cacg_eigvals'])
     if model == 'cwmm':
         out['watson_mode'] = canon_mode(m.complex_watson.mode)
         out['watson_kappa'] = np.asarray(m.complex_watson.concentration)
@@ -381,7 +383,7 @@ def fields(model, m):
     return out
 
 
-CLASS_AXIS = {'cacg_cov': -3, 'cacg_eigvals': -2, 'watson_mode': -3, 'watson_kappa': -1,
+CLASS_AXIS = {'cacg_cov': -3, 'cacg_eigvals': -2, 'cacg_logeig': -2, 'watson_mode': -3, 'watson_kappa': -1,
               'bingham_cov': -3, 'gauss_mean': -2, 'vmf_mean': -2, 'vmf_kappa': -1}
 
 
